@@ -1029,10 +1029,14 @@ class Engine:
         """Call of a repo (or stdlib-mixin) function: contract if it has one, else inline."""
         q = fi.qualname
         c = self.contracts.get(q)
+        if c is not None and not c.covers(kwargs):
+            # keyword arguments the contract says nothing about (e.g. a new flag forwarded to a constructor): the call is
+            # outside the contract's domain - the real body is executed in place instead
+            c = None
         if c is not None and (q not in self.no_contract or any(f is fi for f in st.frames)):
             # (a recursive call of the function under verification uses its own contract: partial correctness)
             self.used_contracts.add(q)
-            return c.apply(self, st, list(args), dict(kwargs))
+            return c.apply(self, st, list(args), self.with_real_defaults(fi, c, args, kwargs))
         if fi.abstract and fi.body and all(isinstance(b, ast.Pass) for b in fi.body):
             raise Unsupported(f"call of abstract method {q}")
         if len(st.frames) > MAX_INLINE_DEPTH:
@@ -1041,6 +1045,27 @@ class Engine:
             raise Unsupported(f"recursive call of {q} without a contract")
         self.inlined.add(q)
         return self.inline(st, fi, args, kwargs)
+
+    @staticmethod
+    def with_real_defaults(fi, c, args, kwargs):
+        """A contract is applied to the arguments the REAL function would see: parameters the call leaves out take the
+        constant default of the real signature (re-read from the AST on every run), not a default written in the sidecar."""
+        kw = dict(kwargs)
+        a = fi.node.args
+        names = [x.arg for x in list(a.posonlyargs) + list(a.args)]
+        defaults = dict(zip(names[len(names) - len(a.defaults):], a.defaults))
+        for ka, kd in zip(a.kwonlyargs, a.kw_defaults):
+            if kd is not None:
+                defaults[ka.arg] = kd
+        for p in getattr(c, "params", ()):
+            if p in kw or p not in defaults:
+                continue
+            if p in names and names.index(p) < len(args):
+                continue
+            d = defaults[p]
+            if isinstance(d, ast.Constant):
+                kw[p] = Const(d.value)
+        return kw
 
     def inline(self, st, fi, args, kwargs):
         loc = self.bind_params(fi, args, kwargs)
